@@ -94,6 +94,11 @@ func compareCase(c *Case, model []ModelObs, real []RenderObs, buildPanic string)
 			ds = append(ds, Disagreement{Case: c, OpIndex: i, Level: "outcome", Expected: model[i].Class, Got: "real run stopped earlier"})
 			return ds
 		}
+		if model[i].HasPrint && model[i].Print != model[i].Raw {
+			ds = append(ds, Disagreement{Case: c, OpIndex: i, Level: "reference-printer", Expected: trunc(model[i].Print), Got: trunc(model[i].Raw),
+				Detail: "executable instance of C01.render_build_eq_print: the model's rendering of the Lean-built tree differs from the reference printer's text"})
+			return ds
+		}
 		class, out := expectFromModel(model[i], nf[i], ops[i])
 		r := real[i]
 		if r.Class != class {
